@@ -216,12 +216,12 @@ TABLE['C14'] = {
 TABLE['C15'] = {
     'modules': ['contracts.install', 'contracts.emitters', 'contracts.installglue'],
     'level': 'other',
-    'explanation': 'proved (deductive): make_install_rule and ninja_install_rule emit the install goal iff there are files to copy or packages to deploy, let it depend on `all`, always out of date, running the file commands followed by the package deployment; the uninstall goal iff files were installed, running exactly the removal commands; nothing when installation is disabled. Everything about *which* files go *where* is bounded only (file_types.clone machinery, getattr-based tables, external doppel/patchelf tools): installify / InstallOutputs / _uninstall_files on the real classes, and the real install and uninstall targets of generated projects run by GNU make with the real doppel and patchelf under six option sets (prefix in place, separate exec-prefix, DESTDIR with a blank, individually set bin/lib/include/man directories with blanks, a prebuilt source-tree library next to / instead of a project library) and four further projects (dual-use library, implicit dependency chain, versioned dependency, explicit search directory)',
+    'explanation': 'proved (deductive): make_install_rule and ninja_install_rule emit the install goal iff there are files to copy or packages to deploy, let it depend on `all`, always out of date, running the file commands followed by the package deployment; the uninstall goal iff files were installed, running exactly the removal commands; nothing when installation is disabled; Environment.supports_destdir answers yes exactly when every installation directory is set and none is an absolute path with a drive; post_install of install_name_tool and of patchelf emit one command that patches the staged (DESTDIR) copy and writes the installed library locations (abstract install database, 0..2 libraries); the path function of installify sends the file and its public parts below the given directory / the root of the kind with DESTDIR iff the build is native, keeps private parts and refuses external files; _install_files emits one copy per database entry (onto / into with members relative to the directory, mode of the kind) followed by the post-install steps; _uninstall_files removes exactly the paths those copies create; _add_install_paths defines one path variable per installation root and DESTDIR iff the backend has it. Everything else about *which* files go *where* is bounded only (file_types.clone machinery, getattr-based tables, external doppel/patchelf tools): installify / InstallOutputs / _uninstall_files on the real classes, and the real install and uninstall targets of generated projects run by GNU make with the real doppel and patchelf under six option sets (prefix in place, separate exec-prefix, DESTDIR with a blank, individually set bin/lib/include/man directories with blanks, a prebuilt source-tree library next to / instead of a project library) and four further projects (dual-use library, implicit dependency chain, versioned dependency, explicit search directory)',
     'assumptions': ['the installed doppel 0.5.0 and patchelf are the tools a user runs', '_install_files / _uninstall_files / _install_mopack / can_install are abstract in the goal contracts (their results are arbitrary command lists)'],
     'trusted_base': ['PyVC (pyvc/*.py)', 'z3 5.1.0'],
     'not_covered': ['pkg-config files, Windows layouts', 'the ninja backend beyond the goal emitter (no ninja binary in the sandbox)', 'option sets other than the generated ones'],
     'level_text': 'Partial: the two goal emitters are proved to refine one description of the install / uninstall goals; the mapping of files to directories, the run-time dependency closure, search-path rewriting and uninstall symmetry are bounded explorations (labelled) with the real tools.',
-    'level_note': 'deductive for make_install_rule / ninja_install_rule only; the rest is a bounded stand-in (DESIGN.md 8.3)',
+    'level_note': 'deductive for make_install_rule / ninja_install_rule, installify, _install_files, _uninstall_files, _add_install_paths, supports_destdir and the two post_install functions (all over abstract file objects); the rest is a bounded stand-in (DESIGN.md 8.3)',
     'technique': 'contract-based proof of the install goal emitters (PyVC + z3) and bounded runtime contracts on the real functions and tools (stand-in, not counted as proved)',
 }
 
@@ -284,7 +284,7 @@ TABLE['C06'] = {
 TABLE['C10'] = {
     'modules': ['contracts.faults', 'contracts.regencheck', 'contracts.regen', 'contracts.installglue'],
     'level': 'other',
-    'explanation': '(proof, find_check_cache under contract with an abstract file system: for any number of regeneration inputs and outputs and arbitrary cached find results, a lazy regeneration is skipped only if the find cache is not newer than the build file, no input is newer than any output and every cached result equals the fresh search; the depfile is refreshed before skipping.) Beyond that kernel the property quantifies over crash points between file-system mutations of a whole run: a function contract relates the pre-state of one call to its post-state and has no notion of "killed here", so nothing else is proved. The rest of the check is bounded fault injection on the real driver, without any change to the repository: the generated regeneration rule is run by GNU make with a launcher that patches open-for-write / close / os.utime / remove / makedirs / rename / replace for paths in the build directory and, at the k-th such event, kills the process (buffered data lost) or raises OSError -- for every k of an uninterrupted run (25 events), two kinds of edit (build.bfg changed; a new file matching find_files) and both fault modes; the next, undisturbed make must then either leave Makefile, .bfg_find_deps and .bfg_find_cache equal to a fresh configure of the edited project or exit non-zero. A build script that raises must leave the previous Makefile byte-identical and fail visibly.',
+    'explanation': '(proof, find_check_cache under contract with an abstract file system: for any number of regeneration inputs and outputs and arbitrary cached find results, a lazy regeneration is skipped only if the find cache is not newer than the build file, no input is newer than any output and every cached result equals the fresh search; the depfile is refreshed before skipping; regenerate._outputs lists the build file of the configured backend first and then every immediate file, and RegenerateFiles.to_json / from_json persist both lists one by one in order.) Beyond that kernel the property quantifies over crash points between file-system mutations of a whole run: a function contract relates the pre-state of one call to its post-state and has no notion of "killed here", so nothing else is proved. The rest of the check is bounded fault injection on the real driver, without any change to the repository: the generated regeneration rule is run by GNU make with a launcher that patches open-for-write / close / os.utime / remove / makedirs / rename / replace for paths in the build directory and, at the k-th such event, kills the process (buffered data lost) or raises OSError -- for every k of an uninterrupted run (25 events), two kinds of edit (build.bfg changed; a new file matching find_files) and both fault modes; the next, undisturbed make must then either leave Makefile, .bfg_find_deps and .bfg_find_cache equal to a fresh configure of the edited project or exit non-zero. A build script that raises must leave the previous Makefile byte-identical and fail visibly.',
     'assumptions': ['a kill is modelled by os._exit at a patched call: files are absent, empty or complete, never partially flushed'],
     'trusted_base': ['PyVC (pyvc/*.py)', 'z3 5.1.0'],
     'not_covered': ['configure (as opposed to regenerate) interrupted', 'pkg-config / immediate files as outputs of the regeneration step (they are rewritten, but only the three files above are compared)', 'the ninja backend', 'two faults in a row'],
